@@ -2,7 +2,27 @@
 
 package cluster
 
-import "github.com/emitter-io/emitter/internal/event"
+import (
+	"fmt"
+
+	"github.com/emitter-io/emitter/internal/event"
+	"github.com/weaveworks/mesh"
+)
 
 // VerifState exposes the replicated state of the swarm (read-only use).
 func (s *Swarm) VerifState() *event.State { return s.state }
+
+// VerifPeerCounters returns, for a remote peer, the per-SSID subscription
+// counters the swarm keeps (nil when the peer is unknown) and whether the peer
+// is considered active.
+func (s *Swarm) VerifPeerCounters(name uint64) (counters map[string]int, active bool) {
+	p, ok := s.members.list.Load(mesh.PeerName(name))
+	if !ok {
+		return nil, false
+	}
+	counters = make(map[string]int)
+	for _, c := range p.(*Peer).subs.All() {
+		counters[fmt.Sprint([]uint32(c.Ssid))] = c.Counter
+	}
+	return counters, p.(*Peer).IsActive()
+}
